@@ -250,6 +250,8 @@ pub fn sites(tier: Tier) -> Vec<Site> {
                 let chopped = guard(|| {
                     let mut c = crate::choppy::Choppy::new(data.clone(), mask, 64);
                     c.interrupt_every = if interrupts { 2 } else { 0 };
+                    // (... and, with the cuts as they are, the second / third / second and third call of all: a retry behind a short read)
+                    c.interrupt_calls = if interrupts { 0 } else { [0u64, 0b10, 0b100, 0b110][(off % 4) as usize] };
                     let _ = std::io::Seek::seek(&mut c, std::io::SeekFrom::Start(off as u64));
                     let r = Vehicle::read_le(&mut c);
                     // and the way back through a writer that takes one byte at a time
